@@ -46,6 +46,7 @@ def _case(draw):
     else:
         sel = [draw(st.integers(0, D - 1))]
     return dict(spec=spec, container=draw(st.sampled_from(['raw', 'raw', 'rfi', 'mef'])), form=form, sel=sel,
+                presliced=draw(st.sampled_from([None, None, 'slice', 'list'])), cut=draw(st.integers(0, 4)),
                 spell=[draw(st.sampled_from(['name', 'pos', 'neg'])) for _ in sel])
 
 
@@ -139,6 +140,23 @@ def check(case, obs):
         x = d
         cells = expand(spec)
         ftype = {'I': 'int', 'F': 'f4', 'D': 'f8'}[spec['datatype']]
+    pre = case.get('presliced')
+    if pre and D >= 2:
+        # the sample under test is a channel sub-selection of a parent that has already been asked by name
+        lo = 1 + case.get('cut', 0) % (D - 1)
+        for nm in x.channels:
+            x[:1, nm]
+            x.range(nm)
+        x = x[:, lo:] if pre == 'slice' else x[:, list(range(lo, D))]
+        cells = [row[lo:] for row in cells]
+        D = D - lo
+        case = dict(case, sel=[j % D for j in case['sel']][:D] or [0])
+        if case['form'] in ('list',):
+            case['sel'] = list(dict.fromkeys(case['sel']))
+        if case['form'] == 'absent':
+            case['sel'] = list(range(D))
+        case['spell'] = (list(case['spell']) + ['name'] * D)[:len(case['sel'])]
+        obs.label('presliced:' + pre)
     arr = np.asarray(x)
     names = list(x.channels)
     sel, form = case['sel'], case['form']
